@@ -97,7 +97,7 @@ def handshakes(oport):
 
 
 async def main(args):
-    out = Out("C14", "c14", "stall points: a client stopped after k bytes of a valid handshake for k over the whole handshake of http / https (inside TLS) / socks5 / socks5+auth / socks4 / socks+tls / CONNECT-over-QUIC, half-done TLS handshakes, a QUIC handshake cut after its first packet, tunnels whose reader stopped while the peer blasts data, requests hanging in a connector whose upstream proxy stalls (CONNECT, SOCKS greeting, TLS handshake never answered); 1..many stallers; pollers on every API endpoint and one fresh tunnel per listener every 50 ms run concurrently. distinct = distinct (phase, endpoint or listener, outcome class)")
+    out = Out("C14", "c14", "stall points: a client stopped after k bytes of a valid handshake for k over the whole handshake of http / https (inside TLS) / socks5 / socks5+auth / socks4 / socks+tls / CONNECT-over-QUIC, half-done TLS handshakes, a QUIC handshake cut after its first packet, tunnels whose reader stopped while the peer blasts data, requests hanging in a connector whose upstream proxy stalls (CONNECT, SOCKS greeting, TLS handshake never answered), and max(32, 3 x cores) tunnels blocked on non-reading peers that the proxy itself reaps after a 3 s idle period; 1..many stallers; pollers on every API endpoint and one fresh tunnel per listener every 50 ms run concurrently. distinct = distinct (phase, endpoint or listener, outcome class)")
     rng = random.Random(args.seed)
     wd = workdir("c14")
     origin = await TcpOrigin(echo_handler, host="127.0.0.1").start()
@@ -432,9 +432,16 @@ async def main(args):
         for p in (A, C, S):
             if not p.alive():
                 out.violation("proxy process died", {"proxy": p.name, "rc": p.exit_status(), "stderr": p.stderr_tail(600)})
+        for c in held:
+            c.close()
+        held = []
+        for p in (A, C, S, F):
+            p.kill()
+        await asyncio.gather(reaped_blocked_tunnels(out, args, wd, blaster.port, origin.port, B), slow_auth_helper(out, args, wd, origin.port, B))
     finally:
         for c in held:
             c.close()
+        held = []
         if relay_tr:
             relay_tr.close()
         for p in (A, C, S, F):
@@ -445,6 +452,146 @@ async def main(args):
         await blaster.stop()
         await stall_up.stop()
     out.finish()
+
+
+async def reaped_blocked_tunnels(out, args, wd, blaster_port, oport, B):
+    """the proxy itself ends many tunnels that are blocked on peers that do not read (idle period 3 s, megabytes queued towards
+    every client): tearing them down must not keep the API or new connections waiting"""
+    import os
+    P = {k: free_port() for k in ("http", "api")}
+    R = Proxy(args.bin, base_cfg([{"name": "http", "bind": "127.0.0.1:%d" % P["http"]}], [{"name": "direct"}], [{"target": "direct"}], metrics_port=P["api"], timeouts={"idle": 3, "udp": 3}), "R", wd)
+    held = []
+    try:
+        await R.start()
+        n = max(32, 3 * (os.cpu_count() or 4))
+        for _ in range(n):
+            try:
+                c = await open_conn("127.0.0.1", P["http"], rcvbuf=4096)
+                await http_connect(c, "127.0.0.1", blaster_port)
+                try:
+                    c.w.transport.pause_reading()
+                except Exception:
+                    pass
+                held.append(c)
+            except Exception:
+                pass
+        out.setx("blocked_tunnels_reaped_by_idle_timeout", len(held))
+        res = []
+        stop = now() + 3 + 1 + (8 if not args.thorough else 14)
+
+        async def poll(path):
+            while now() < stop:
+                t0 = now()
+                try:
+                    st, _, _ = await R.api("GET", path, None, B + 8)
+                    r = "ok" if st == 200 else "status-%d" % st
+                except asyncio.TimeoutError:
+                    r = "timeout"
+                except Exception as e:
+                    r = "error:" + type(e).__name__
+                res.append(("api GET " + path, r, now() - t0))
+                await asyncio.sleep(0.1)
+
+        async def fresh():
+            while now() < stop:
+                t0 = now()
+                r = "ok"
+                try:
+                    c = await asyncio.wait_for(open_conn("127.0.0.1", P["http"]), B + 8)
+                    try:
+                        st, _ = await asyncio.wait_for(http_connect(c, "127.0.0.1", oport), B + 8)
+                        c.write(b"ping")
+                        await c.drain()
+                        if st != 200 or await c.read_exact(4, timeout=B + 8) != b"ping":
+                            r = "failed"
+                    finally:
+                        c.close()
+                except asyncio.TimeoutError:
+                    r = "timeout"
+                except Exception as e:
+                    r = "error:" + type(e).__name__
+                res.append(("tunnel via http", r, now() - t0))
+                await asyncio.sleep(0.1)
+        await asyncio.gather(poll("/status"), poll("/live"), poll("/history"), fresh())
+        worst = {}
+        for (w, r, l) in res:
+            out.case()
+            cls = "ok" if (r == "ok" and l <= B) else ("slow" if r == "ok" else r)
+            out.nontrivial(("reaping-blocked-tunnels", w, cls))
+            if cls != "ok" and (w not in worst or l > worst[w][1]):
+                worst[w] = (cls, l)
+        for w, (cls, l) in worst.items():
+            out.violation("%s does not complete within its bound while the proxy tears down tunnels blocked on peers that do not read" % w, {"outcome": cls, "latency_s": round(l, 2), "bound_s": round(B, 2), "tunnels": len(held), "idle_period_s": 3})
+        if not R.alive():
+            out.violation("proxy process died", {"proxy": "R"})
+    finally:
+        for c in held:
+            c.close()
+        R.kill()
+
+
+async def slow_auth_helper(out, args, wd, oport, B):
+    """a client whose credentials take long to verify (the external auth command needs 8 s for it) is a slow client like any other:
+    logins of other users on the same listener, which also go through the command, must not wait for it"""
+    from .lib import fx
+    P = {k: free_port() for k in ("socks", "api")}
+    Q = Proxy(args.bin, base_cfg([{"name": "socks", "type": "socks", "bind": "127.0.0.1:%d" % P["socks"], "auth": {"required": True, "cmd": [fx("slowauth.sh"), "#USER#", "#PASS#"], "cache": {"timeout": 60}}}],
+                                 [{"name": "direct"}], [{"target": "direct"}], metrics_port=P["api"]), "Q", wd)
+    slow = []
+    try:
+        await Q.start()
+        # warm-up: one ordinary login
+        c = await open_conn("127.0.0.1", P["socks"])
+        rep, _, _ = await socks5_connect(c, "127.0.0.1", oport, auth=("warm", "pw"))
+        c.close()
+        if rep != 0:
+            out.inconclusive += 1
+            return
+        for i in range(3):
+            c = await open_conn("127.0.0.1", P["socks"])
+            c.write(bytes([5, 1, 2]))
+            await c.drain()
+            await c.read_exact(2, timeout=5)
+            # (the listener verifies the credentials when the request arrives: send all of it; the verification then takes 8 s)
+            c.write(bytes([1, 4]) + b"slow" + bytes([2]) + b"pw" + bytes([5, 1, 0]) + addr_v5("127.0.0.1", oport))
+            await c.drain()
+            slow.append(c)
+        await asyncio.sleep(0.3)
+        res = []
+        stop = now() + 5.0
+        n = 0
+        while now() < stop:
+            n += 1
+            out.case()
+            t0 = now()
+            r = "ok"
+            try:
+                c = await open_conn("127.0.0.1", P["socks"])
+                try:
+                    rep, _, _ = await asyncio.wait_for(socks5_connect(c, "127.0.0.1", oport, auth=("user%d" % n, "pw")), B + 8)
+                    if rep != 0:
+                        r = "refused"
+                finally:
+                    c.close()
+            except asyncio.TimeoutError:
+                r = "timeout"
+            except Exception as e:
+                r = "error:" + type(e).__name__
+            lat = now() - t0
+            cls = "ok" if (r == "ok" and lat <= B) else ("slow" if r == "ok" else r)
+            out.nontrivial(("slow-auth-helper", cls))
+            res.append((cls, lat))
+            await asyncio.sleep(0.1)
+        bad = [x for x in res if x[0] != "ok"]
+        if bad:
+            w = max(bad, key=lambda x: x[1])
+            out.violation("login of another user does not complete within its bound while one client's credentials are being verified slowly", {"outcome": w[0], "latency_s": round(w[1], 2), "bound_s": round(B, 2), "logins": len(res), "delayed": len(bad)})
+        if not Q.alive():
+            out.violation("proxy process died", {"proxy": "Q"})
+    finally:
+        for c in slow:
+            c.close()
+        Q.kill()
 
 
 async def probe_via(port, oport):
